@@ -29,8 +29,12 @@ The program space is a union of complete products (all enumerated completely, se
               return annotation x typechecker (plain def);
   P  property: getter/setter programs (setter parameter name from the alphabet).
 
-  quick: N = 3, NN = 2 (2 names: all annotated only);  thorough: N = 4, NN = 3
-  (3 names: all annotated, with return annotation only).
+  quick:    N = 3, NN = 2; the 2-name tuples are "lite": all annotated only, ONE
+            ill-typed list (wrong rank at the last parameter), raising body mode
+            on the first binding recipe only.
+  thorough: N = 4, NN = 3; 1- and 2-name tuples in full; the 3-name tuples are
+            "lite" as above, with return annotation only, and drawn from the pool
+            without y / memos / bound.
 """
 from __future__ import annotations
 
@@ -45,6 +49,9 @@ KINDS = ("PO", "PK", "VP", "KO", "VK")
 NAMES = ("x", "y", "T0", "default0", "ret0", "args", "kwargs", "fn", "memos", "bound", "<own>")
 FNAMES = ("f", "T0", "ret0", "check_single_arg")
 CANON = ("x", "T0", "y", "ret0")
+# thorough tier, 3-name tuples: one plain name and three of the five wrapper-local
+# names are dropped from the pool (all 11 names are exhaustive for <= 2 parameters)
+DROP_AT_TOP = ("y", "memos", "bound")
 # identifiers that the wrapper / the generated checking functions use themselves
 INTERNAL = frozenset(["T0", "default0", "ret0", "args", "kwargs", "fn", "memos", "bound", "check_single_arg"])
 
@@ -110,8 +117,10 @@ def bounds(tier):
 
 def iter_programs(tier):
     """Deterministic enumeration of the whole program space of a tier.
-    spec = ("fn", fname, ckind, desc, ret, tc, params) with params a tuple of
-    (kind, name, has_default, annotated), or
+    spec = ("fn", fname, ckind, desc, ret, tc, params, lite) with params a tuple of
+    (kind, name, has_default, annotated); lite = 1 restricts the ill-typed lists of
+    the program to one (wrong rank at the last annotated parameter) and the raising
+    body mode to the first binding recipe; or
     ("prop", fname, tc, getter_ret, setter_name, setter_annotated, setter_ret)."""
     b = bounds(tier)
     N, NN = b["N"], b["NN"]
@@ -131,13 +140,15 @@ def iter_programs(tier):
                         if ck == "lambda_ann" and not (any(an) or ret):
                             continue
                         for tc in TCS:
-                            yield ("fn", "f", ck, desc, ret, tc, params)
+                            yield ("fn", "f", ck, desc, ret, tc, params, 0)
     # ---- B: names
     for n in range(1, NN + 1):
         reduced = tier == "thorough" and n == NN
         half = tier == "quick" and n == NN
         for fname in FNAMES:
             pool = resolve_names(fname)
+            if reduced:
+                pool = [nm for nm in pool if nm not in DROP_AT_TOP]
             for names in itertools.permutations(pool, n):
                 if fname == "f" and names == CANON[:n]:
                     continue  # already in A
@@ -146,7 +157,7 @@ def iter_programs(tier):
                         params = tuple(zip(ks, names, ds, an))
                         for ret in (1,) if reduced else (0, 1):
                             for tc in TCS:
-                                yield ("fn", fname, "def", "plain", ret, tc, params)
+                                yield ("fn", fname, "def", "plain", ret, tc, params, 1 if (reduced or half) else 0)
     # ---- P: properties
     for fname in FNAMES:
         for sname in resolve_names(fname):
@@ -352,7 +363,7 @@ def program_source(spec):
             f"    def {fname}(self, {sname}{': _A_' if sann else ''}){' -> None' if sret else ''}:\n"
             "        _R_(locals())\n"
         )
-    _, fname, ck, desc, ret, tc, params = spec
+    _, fname, ck, desc, ret, tc, params = spec[:7]
     first = {"plain": None, "staticmethod": None, "method": "self", "classmethod": "cls"}[desc]
     ind = "" if desc == "plain" else "    "
     if ck.startswith("lambda"):
@@ -392,7 +403,8 @@ class _Program:
             self.params = ()
         else:
             self.family = "fn"
-            _, self.fname, self.ck, self.desc, self.ret, self.tc, self.params = spec
+            _, self.fname, self.ck, self.desc, self.ret, self.tc, self.params = spec[:7]
+            self.lite = bool(spec[7]) if len(spec) > 7 else False
             scope["_RA_"] = env.ItA if self.ck == "gen" else env.A
             for i, p in enumerate(self.params):
                 if p[2]:
@@ -741,9 +753,13 @@ def program_cases(prog):
     bind = binding_recipes(params)
     nonbind = nonbinding_recipes(params)
     ill = illtyped_recipes(params)
+    if prog.lite:
+        ill = [x for x in ill if x[0].startswith("rank@")][-1:]
     for access in prog.accesses():
-        for rc in bind:
+        for j, rc in enumerate(bind):
             for mode in ("ret", "raise"):
+                if mode == "raise" and prog.lite and j > 0:
+                    continue
                 yield dict(kind="bind", access=access, recipe=list(rc), mode=mode)
         for label, rc, extra in nonbind:
             yield dict(kind="nonbind", access=access, recipe=list(rc), extra=extra, label=label)
@@ -781,7 +797,7 @@ def is_nontrivial(spec, case):
         return True
     if spec[0] == "prop":
         return True
-    _, fname, ck, desc, ret, tc, params = spec
+    _, fname, ck, desc, ret, tc, params = spec[:7]
     if case["kind"] == "static":
         return ck != "def" or desc != "plain" or bool(params)
     if not params:
@@ -796,13 +812,13 @@ def is_nontrivial(spec, case):
 def spec_json(spec):
     if spec[0] == "prop":
         return list(spec)
-    return list(spec[:6]) + [[list(p) for p in spec[6]]]
+    return list(spec[:6]) + [[list(p) for p in spec[6]]] + list(spec[7:])
 
 
 def spec_from_json(js):
     if js[0] == "prop":
         return tuple(js)
-    return tuple(js[:6]) + (tuple(tuple(p) for p in js[6]),)
+    return tuple(js[:6]) + (tuple(tuple(p) for p in js[6]),) + tuple(js[7:])
 
 
 def describe(spec, case):
@@ -934,7 +950,7 @@ def run(ctx):
         f"annotation x 2 typecheckers x 16 callable/descriptor variants (< {b['N']} parameters) / "
         f"{list(VARIANTS_TOP_QUICK if ctx.quick else VARIANTS_TOP_THOROUGH)} (= {b['N']} parameters); "
         f"B: all ordered tuples of distinct names from {NAMES} for <= {b['NN']} parameters x all (kinds, defaults) patterns x "
-        + ("{all,none} annotated (1 parameter) / all annotated (2 parameters) x return annotation" if ctx.quick else "{all,none} annotated x return annotation (<= 2 parameters) / all annotated with return annotation (3 parameters)")
+        + ("{all,none} annotated (1 parameter) / all annotated and ONE ill-typed list (wrong rank at the last parameter), raising body on the first binding recipe only, (2 parameters) x return annotation" if ctx.quick else "{all,none} annotated x return annotation (<= 2 parameters) / names without ('y','memos','bound'), all annotated with return annotation and ONE ill-typed list (wrong rank at the last parameter), raising body on the first binding recipe only, (3 parameters)")
         + f" x function names {FNAMES} x 2 typecheckers, plain def; P: property get/set, setter parameter name from the alphabet. "
         "Per program: every binding recipe (pos/keyword/default per parameter, 0-2 extra positionals, extra keywords {}, {zz}, {zz,zy}, "
         "{the wrapper's output name}, {a positional-only parameter's name}, {T0|default0}) x body mode {return, raise}; non-binding lists "
